@@ -7,6 +7,8 @@
 
 package server
 
+import "time"
+
 func verifAssert(label string, cond bool) {
 	if !cond {
 		panic("verif: assertion failed: " + label)
@@ -124,6 +126,23 @@ func verifCanary(label string, cond bool) {}
 //@   assigns nothing
 //@   ensures result != nil && fresh(result)
 
+// C29: the subscription's goroutine creates its ticker from the revised publishing interval, and
+// time.NewTicker panics for a duration that is not positive. The interval is a float64 number of
+// milliseconds chosen by the client (0, 0.5, -1, NaN, +Inf are all legal requests): what the service
+// stores must lie in a range for which the ticker duration is positive (lemma verifTickerDuration below;
+// float comparisons and the float-to-integer conversion are exact IEEE semantics in the verifier).
+//@ pred intervalOK(x float64) := x >= 1.0 && x <= 86400000.0
+
+//@ func verifTickerDuration
+//@   props C29
+func verifTickerDuration(x float64) {
+	if x >= 1.0 && x <= 86400000.0 { // intervalOK(x)
+		d := time.Millisecond * time.Duration(x) // the expression Subscription.run hands to time.NewTicker
+		verifAssert("C29:ticker-duration-positive", d > 0)
+	}
+	verifCanary("C29:canary-any-interval-is-positive", time.Millisecond*time.Duration(x) > 0)
+}
+
 //@ func (*SubscriptionService).CreateSubscription
 //@   props C32 C29
 //@   requires s != nil && s.srv != nil && s.srv.cfg != nil && subsInv(s) && s.lastSubID < 4294967295
@@ -135,6 +154,7 @@ func verifCanary(label string, cond bool) {}
 //@   ensures [C32:typed] err == nil ==> typeis(r, *ua.CreateSubscriptionRequest) && typeis(result0, *ua.CreateSubscriptionResponse)
 //@   ensures [C32:fresh-id] err == nil ==> forall x uint32 :: x == dyn(result0, *ua.CreateSubscriptionResponse).SubscriptionID ==> !old(in(x, s.Subs))
 //@   ensures [C32:registered] err == nil ==> in(dyn(result0, *ua.CreateSubscriptionResponse).SubscriptionID, s.Subs) && subsInv(s)
+//@   ensures [C29:interval-usable] err == nil ==> intervalOK(s.Subs[dyn(result0, *ua.CreateSubscriptionResponse).SubscriptionID].RevisedPublishingInterval)
 //@   canary ensures [C32:canary-id-one] err == nil ==> dyn(result0, *ua.CreateSubscriptionResponse).SubscriptionID == 1
 
 // same session: the authentication tokens have the same textual form (what the code compares)
@@ -416,3 +436,14 @@ func verifCanary(label string, cond bool) {}
 //@   ensures [C35:unknown-token-refused] typeis(r, *ua.ActivateSessionRequest) && !in(ua.nodeStr(tok), s.srv.sb.s) ==> err != nil && result0 == nil
 //@   ensures [C35:activation-verified] err == nil && sc.cfg.SecurityMode != ua.MessageSecurityModeNone ==> uasc.sessionSigKeyOK(cert, sig)
 //@   canary ensures [C35:canary-always-activates] err == nil
+
+// The subscription's goroutine. Only its first step is claimed here: the duration handed to
+// time.NewTicker (documented to panic unless positive) is positive for every interval CreateSubscription
+// can have stored ([C29:interval-usable] above establishes the precondition for every subscription it
+// starts). The rest of the body is a select loop over channels and timers (schedules; not claimed).
+//@ func (*Subscription).run@ticker
+//@   props C29
+//@   frame_only
+//@   only ticker-duration-positive
+//@   requires s != nil && intervalOK(s.RevisedPublishingInterval)
+//@   assigns *
